@@ -562,6 +562,12 @@ func (r *lfRig) repair(cfg *lfCfg) bool {
 		r.busy.Close() // whoever held the port has gone
 	case "missing:htpasswd":
 		os.WriteFile(filepath.Join(root, "does-not-exist.ht"), []byte("bob:"+sha("hunter2")+"\n"), 0644)
+	case "bad:htpasswd-user":
+		// the user is added to the file
+		os.WriteFile(filepath.Join(root, "others.ht"), []byte("alice:"+sha("secret")+"\nnobody:"+sha("pw")+"\n"), 0644)
+	case "bad:htpasswd":
+		// the broken line is removed
+		os.WriteFile(filepath.Join(root, "bad.ht"), []byte("bob:"+sha("hunter2")+"\nzed:"+sha("z")+"\n"), 0644)
 	case "missing:import":
 		os.WriteFile(none+".conf", []byte("header /imported X-Imported yes\n"), 0644)
 	case "startup-callback:log":
